@@ -481,6 +481,23 @@ func c11Judge(c *c11Case, wr *worldRun) *c11Verdict {
 			break
 		}
 	}
+	// ---- clause 2: warnings of every decodable, undamaged response are shown (also when it carries an error) ----
+	if !c.Quiet {
+		for _, pr := range res.Procs {
+			pl := byPath[pr.Path]
+			if pl == nil || !pr.Finished || pr.Exit != 0 || noteStr(pr.Notes, "out.class") != "valid" || string(pr.Notes["out.mangled"]) != "false" || pl.Kind == "orphan-first" {
+				continue
+			}
+			if ws, ok := pl.Script["warnings"].([]interface{}); ok {
+				for _, w := range ws {
+					if s, _ := w.(string); s != "" && !strings.Contains(wr.Stderr, s) {
+						return bad("warning-lost", "warning-lost", "plugin %s's warning %q is not shown", pl.Name, s)
+					}
+				}
+				v.Trivia["warnings-checked"]++
+			}
+		}
+	}
 	if anyFailure != "" {
 		v.Trivia["plugin-failure"]++
 		if exit == 0 {
@@ -678,7 +695,12 @@ func c11GenCase(seed uint64, bo *backendOpts, corp []*program, idx int) *c11Case
 	if idx%5 == 4 && len(corp) > 0 {
 		prog = corp[(idx/5)%len(corp)]
 	} else {
-		prog = genProgram(simrt.Mix(seed, 0xa57), idlgen.Options{MaxFiles: 5, MaxDefs: 6, Rich: idx%3 == 0})
+		o := idlgen.Options{MaxFiles: 5, MaxDefs: 6, Rich: idx%3 == 0}
+		if idx%11 == 10 {
+			// a large request (more than a pipe buffer): matters for plugins that do not drain their stdin
+			o = idlgen.Options{MaxFiles: 3, MaxDefs: 140}
+		}
+		prog = genProgram(simrt.Mix(seed, 0xa57), o)
 	}
 	c := &c11Case{Prog: prog.Name, Files: prog.Files, Cwd: prog.Cwd, Main: prog.Main, Seed: seed}
 	c.Cfg = config{Backend: []string{"go", "go", "go", "fastgo"}[r.Intn(4)], Rec: r.Chance(2, 3)}
